@@ -770,7 +770,7 @@ def t_topk(interp, t, k=None, dim=-1, largest=True, sorted=True):
     # the bound is on the size of the dimension the selection runs along (torch: "selected index k out of range")
     interp.cx.oblige("prim.topk.k_in_range", z3.And(0 <= lift(k), lift(k) <= lift(t.shape_l[d])), kind="prim")
     sh = t.shape_l[:d] + [k] + t.shape_l[d + 1:]
-    if d != rank - 1:  # selection along another dimension: a different function of t (dim is part of the term)
+    if d != rank - 1:  # selection along another dimension: a different function of t (dim is part of the term; interpreted numerically by numeval._topk_dim when sorted)
         sfx = "" if sorted is True else "_unsorted"
         vals = mk("topk_vals_dim" + sfx, [t, k, largest, d], sh, t.dtype)
         idx = mk("topk_idx_dim" + sfx, [t, k, largest, d], sh, U("int64", DtypeS))
